@@ -90,6 +90,8 @@ type pending struct {
 }
 
 type Ledger struct {
+	Observed  map[string]int // counts of OutsideStatement observations
+	scratch   []Violation
 	CreditCap int64 // B: un-returned credit must stay < B + bytes still held unread
 	// SubjOpens: the subject is the client (it opens the streams with HEADERS); otherwise the peer opens them.
 	SubjOpens bool
@@ -136,7 +138,25 @@ func New() *Ledger {
 		Streams: map[uint32]*Stream{}, expectStream: map[uint32]string{}, gotStreamFCE: map[uint32]bool{}}
 }
 
+// OutsideStatement lists disagreements with RFC 7540 that property C12 as stated does NOT forbid (it demands: never send
+// beyond the peer's windows, deliver queued data, treat a peer exceeding the ADVERTISED windows as a flow-control error,
+// return credit so that UN-returned credit stays bounded). Returning MORE credit than was consumed, or not rejecting a
+// send-window overflow attempt (WINDOW_UPDATE / SETTINGS_INITIAL_WINDOW_SIZE past 2^31-1) is recorded in Observed, ends
+// the history (the RFC does not define what follows), and is not reported as a violation.
+var OutsideStatement = map[string]bool{"conn-credit-over-returned": true, "stream-credit-over-returned": true, "overflow-not-rejected": true}
+
 func (l *Ledger) bad(kind string, stream uint32, format string, a ...any) {
+	if OutsideStatement[kind] {
+		if l.Observed == nil {
+			l.Observed = map[string]int{}
+		}
+		l.Observed[kind]++
+		l.PeerViolated = true // terminal: do not expand this history further
+		// keep a placeholder so that callers that patch the Cause of the last violation have something to write to
+		l.scratch = append(l.scratch[:0], Violation{})
+		l.viol = append(l.viol, Violation{Kind: "\x00observed"})
+		return
+	}
 	l.viol = append(l.viol, Violation{Kind: kind, Stream: stream, Msg: fmt.Sprintf(format, a...)})
 }
 
@@ -597,7 +617,12 @@ func (l *Ledger) Quiesce() []Violation {
 			}
 		}
 	}
-	v := l.viol
+	v := l.viol[:0:0]
+	for _, x := range l.viol {
+		if x.Kind != "\x00observed" {
+			v = append(v, x)
+		}
+	}
 	l.viol = nil
 	return v
 }
